@@ -58,11 +58,12 @@ func cacheLoader(p *Prog) (*ssa.Function, *ssa.Call) {
 		if len(callInstrs(fn, "(*bufio.Scanner).Scan")) == 0 {
 			continue
 		}
-		for _, b := range fn.Blocks {
-			for _, in := range b.Instrs {
-				if c, ok := in.(*ssa.Call); ok {
-					if f := StaticCallee(&c.Call); f != nil && f.Name() == "UnmarshalJSON" {
-						return fn, c
+		// the decode may sit in a small per-line helper expanded in place
+		for _, s := range PathsInl(fn).Segs {
+			for _, e := range s.Events {
+				if e.Kind == EvCall {
+					if f := StaticCallee(e.Call); f != nil && f.Name() == "UnmarshalJSON" {
+						return fn, e.Instr.(*ssa.Call)
 					}
 				}
 			}
@@ -153,7 +154,7 @@ func checkCacheLoader(p *Prog, r *Report) {
 	// parse side
 	okL, whyL := true, ""
 	nPut := 0
-	for _, s := range Paths(loader).Segs {
+	for _, s := range PathsInl(loader).Segs {
 		var put *Event
 		for _, e := range s.Events {
 			if e.Kind == EvCall {
@@ -216,7 +217,10 @@ func checkCacheLoader(p *Prog, r *Report) {
 	subS := NewReport("C11", r.Tier)
 	checkStaleDecodeTarget(p, subS, loader)
 	if len(subS.Obs) == 0 {
-		r.Viol("C11.R2", name+"/decode-target", pos, "the loader decodes each line into a target", "no UnmarshalJSON into a local target found")
+		// decode inside a per-line helper: its local target is fresh for every call
+		tgt, isA := um.Call.Args[0].(*ssa.Alloc)
+		fresh := isA && um.Parent() != loader && tgt.Parent() == um.Parent() && len(LoopHeaders(um.Parent())) == 0
+		r.Check(fresh, "C11.R2", name+"/decode-target", pos, "a cache line never inherits fields of the previous line: the decode target is fresh per line", "no UnmarshalJSON into a per-line target found")
 	}
 	for _, o := range subS.Obs {
 		o2 := *o
